@@ -1,10 +1,14 @@
 /* Force-included (goto-cc -include) in front of every translation unit.
- * 1. pulls in the real zck_private.h (include guard => later #include is a no-op)
- * 2. re-defines the block-size constants the code is parametric in when a harness asks for
+ * 1. optionally replaces uthash.h by the list model (-DV_UTHASH_MODEL)
+ * 2. pulls in the real zck_private.h (include guard => later #include is a no-op)
+ * 3. re-defines the block-size constants the code is parametric in when a harness asks for
  *    scaled values (-DV_BUF_SIZE=.. etc.).  The scaled values are printed in the evidence. */
 #ifndef VERIF_PRE_H
 #define VERIF_PRE_H
 #ifndef V_NO_PRIVATE
+#ifdef V_UTHASH_MODEL
+#include "uthash_model.h"
+#endif
 #include "zck_private.h"
 #ifdef V_BUF_SIZE
 #undef BUF_SIZE
